@@ -614,7 +614,7 @@ static void gen_c14(Builder &b, bool thorough) {
 	if (m == 0) { b.plan.p_num = 0; b.plan.p_den = 1; }           // run to completion, tasks in random order
 	else if (m <= 5) { b.plan.p_num = 1; b.plan.p_den = dens[m - 1]; }
 	else { b.plan.p_num = 1; b.plan.p_den = 32; }
-	if (rng.chance(1, 2)) { b.plan.park_site = rng.chance(2, 3) ? rt::SITE_ALLOC : (int)rng.pick(std::vector<int>{1, 3, 6, rt::SITE_MMAP, rt::SITE_MPROTECT, rt::SITE_OP_BEGIN}); b.plan.park_num = 3; b.plan.park_den = 4; }
+	if (rng.chance(1, 2)) { b.plan.park_site = rng.chance(2, 3) ? rt::SITE_ALLOC : (int)rng.pick(std::vector<int>{1, 3, 6, 7, rt::SITE_MMAP, rt::SITE_MPROTECT, rt::SITE_MUNMAP, rt::SITE_MUNMAP, rt::SITE_FREE, rt::SITE_SIGACTION, rt::SITE_OP_BEGIN}); b.plan.park_num = 3; b.plan.park_den = 4; }
 }
 
 // ------------------------------------------------------------------ C08: dataset initialisation plans
